@@ -666,7 +666,9 @@ def e2e_chars(ctx, corr):
                 if form is None:
                     continue
                 items.append((b'C(@ID@, ' + prefix.encode() + b"'" + form + b"');", f"{prefix}'" + form.decode('utf-8', 'replace') + "'"))
-    corr.count('skipped_multichar_and_out_of_range', 1)          # never generated: 'ab', 'é', u'\U0001F600', '\x100'
+    corr.extra['excluded_by_construction'] = ("never generated (implementation-defined or constraint violations): multi-character constants "
+                                              "('ab', plain 'é'), u'' above U+FFFF, escapes out of range for the element type, \\e, "
+                                              "UCNs below U+00A0 or in D800-DFFF, invalid UTF-8 in the source, mixed wide prefixes")
     e2e(ctx, corr, 'char', items, 'character constant: value / type differ from gcc -std=c11 (C11 6.4.4.4)', norm_ll)
 
 def string_body(rng, prefix, n=None):
